@@ -84,7 +84,12 @@ class Sink:
         self.fkey = fkey
         self.obs: list[Ob] = []
 
+    facet = None
+    facet_all = False
+
     def oblige(self, st, goal, kind, label, node, frame):
+        if self.facet is not None and not self.facet_all and (kind not in ("F", "I", "A") or label.startswith("class-inv")):
+            return
         line = getattr(node, "lineno", 0) if node is not None else 0
         name = f"{self.fkey}/{kind}/{label}"
         goal = skolemize(goal)
@@ -148,6 +153,20 @@ def discharge(ob: Ob, timeout_s: int, use_cvc5=True):
 
     # 1. everything, short budget (most obligations are immediate)
     r, s = attempt(ob.assumptions, min(timeout_s, 2) * 1000)
+    # 1b. counter-model search by refinement (sound in both directions): solve a SUBSET of the premises with the negated
+    #     goal; `unsat` proves the goal (fewer premises); a model is EVALUATED on every premise left out - a premise
+    #     that is false (or cannot be evaluated) under it joins the subset; when every left-out premise evaluates to
+    #     True the model satisfies all premises and the negated goal: a genuine counter-model, found without asking
+    #     the solver to build interpretations for quantified premises that have nothing to do with the failure
+    if r == z3.unknown:
+        rr = _refine(ob.assumptions, to_z3(goal), min(timeout_s, 12))
+        if rr is not None:
+            r, s = rr
+            if r == z3.unsat:
+                ob.verdict = "proved"
+                ob.time = time.time() - t0
+                _canary(ob)
+                return
     # 2. relevance filtering (sound: proving from FEWER premises) keeps noisy nonlinear / library facts that share
     #    no symbol with the goal out of the solver's way
     if r == z3.unknown and len(ob.assumptions) > 12:
@@ -245,6 +264,102 @@ def discharge(ob: Ob, timeout_s: int, use_cvc5=True):
     else:
         ob.verdict = "unknown"
         ob.detail = s.reason_unknown()
+
+
+def _refine(assumptions, goal, budget_s):
+    from .rel import EXT
+    prem = [a for a in assumptions if is_z3(a)]
+    keep = {a.get_id() for a in relevant(prem, goal, 1)}
+    deadline = time.time() + budget_s
+    # concrete interpretations of some library functions (sound for refutation: they only remove models)
+    allsyms = set(symbols(goal))
+    for a in prem:
+        allsyms |= symbols(a)
+    hints = [h for names, h in _lib2.REFUTE_HINTS if any(nm in allsyms for nm in names)]
+
+    def solve(extra=()):
+        left = deadline - time.time()
+        if left <= 0.2:
+            return None, None
+        sv = _solver(int(min(left, 4) * 1000))
+        for a in prem:
+            if a.get_id() in keep:
+                sv.add(a)
+        for a in extra:
+            sv.add(a)
+        for h in hints:
+            sv.add(h)
+        sv.add(z3.Not(goal))
+        return sv.check(), sv
+
+    for _ in range(60):
+        r, sv = solve()
+        if r == z3.unsat:
+            return z3.unsat, sv
+        if r != z3.sat:
+            return None
+        m = sv.model()
+        false_ones, unclear = [], []
+        for a in prem:
+            if a.get_id() in keep:
+                continue
+            try:
+                v = m.eval(a, model_completion=True)
+            except z3.Z3Exception:
+                v = None
+            if v is not None and z3.is_true(v):
+                continue
+            (false_ones if (v is not None and z3.is_false(v)) else unclear).append(a)
+        if false_ones:
+            for a in false_ones:
+                keep.add(a.get_id())
+            continue
+        if not unclear:
+            return z3.sat, sv
+        # premises the evaluator cannot decide under this model
+        used_syms = set(symbols(goal))
+        for a in prem:
+            if a.get_id() in keep:
+                used_syms |= symbols(a)
+        # (a) library characterisations of fresh symbols that the solved part does not mention: conservative extensions
+        rest = []
+        for a in unclear:
+            ent = EXT.get(a.get_id())
+            if ent is not None and ent[0].eq(a) and ent[1] and not (ent[1] & used_syms):
+                continue
+            rest.append(a)
+        # (b) premises that share no symbol (transitively, among themselves) with the solved part: independent
+        dep, indep = [], list(rest)
+        changed = True
+        while changed:
+            changed = False
+            for a in list(indep):
+                if symbols(a) & used_syms:
+                    indep.remove(a)
+                    dep.append(a)
+                    used_syms |= symbols(a)
+                    changed = True
+        if indep:
+            sd = _solver(2000)
+            for a in indep:
+                sd.add(a)
+            if sd.check() == z3.unsat:
+                return None
+        if not dep:
+            return z3.sat, sv
+        # (c) the dependent ones join the solved part - one at a time: a single premise the solver cannot handle must
+        #     not hide the others
+        progressed = False
+        for a in sorted(dep, key=lambda x: len(str(x))):
+            r2, _ = solve(extra=[a])
+            if r2 == z3.sat or r2 == z3.unsat:
+                keep.add(a.get_id())
+                progressed = True
+                if r2 == z3.unsat:
+                    break
+        if not progressed:
+            return None
+    return None
 
 
 def _has_quantifier(e):
@@ -519,7 +634,27 @@ def class_invariants(I: Interp, cls: str, reg):
     return out
 
 
-def verify_function(key: str, repo: Repo, reg, timeout_s=20) -> FunctionResult:
+def facets_of(key, reg):
+    """Names of the facets that occur in the contract, the loop invariants and the statement contracts of a function."""
+    out = set()
+    c = reg["contracts"].get(key)
+    if c is not None and getattr(c, "only_facet", None):
+        return []          # verified once, in that facet's pass (verify_function switches to it)
+    if c is not None:
+        for e in list(c.ensures) + list(c.exit_ensures):
+            f = getattr(e, "facet", None)
+            if f:
+                out.add(f)
+    for (k, _lid), inv in reg["invariants"].items():
+        if k == key:
+            out |= {getattr(e, "facet", None) for e in inv.inv} - {None}
+    for sc in reg["stmts"].get(key, []):
+        if getattr(sc, "facet", None):
+            out.add(sc.facet)
+    return sorted(out)
+
+
+def verify_function(key: str, repo: Repo, reg, timeout_s=20, facet=None) -> FunctionResult:
     res = FunctionResult(key)
     t0 = time.time()
     c = reg["contracts"][key]
@@ -532,7 +667,13 @@ def verify_function(key: str, repo: Repo, reg, timeout_s=20) -> FunctionResult:
         return res
     module, cls, fn = info
     sink = Sink(key)
+    if getattr(c, "only_facet", None):
+        facet = c.only_facet
+        sink.facet_all = True
+    sink.facet = facet
     I = Interp(repo, reg, sink)
+    I.facet = facet
+    I.facet_all = sink.facet_all
     lib.USED.clear()
     try:
         st = State()
@@ -650,6 +791,8 @@ def check_outcome(I: Interp, o: Outcome, c, pre: State, invs, fn, selfcls):
         # (2) postconditions
         ens = c.exit_ensures if c.is_cm else c.ensures
         for i, e in enumerate(ens):
+            if not I.clause_due(e):
+                continue
             lbl = c.labels.get(i, f"post#{i}")
             I.oblige(st, I.contract_truth(e, st), "F", lbl, node)
         for lbl, e in (c.claims.items() if not c.is_cm else ()):
